@@ -168,6 +168,8 @@ class Runner:
             if "final" in step:
                 from photon_weave.state.expansion_levels import ExpansionLevel
                 kw["final"] = ExpansionLevel[step["final"]]
+            if "tol" in step and via in ("state", "env"):
+                kw["tol"] = float(step["tol"])
             if via == "state":
                 return tg[0].contract(**kw)
             if via == "env":
